@@ -86,6 +86,7 @@ flow answering
 
 class Rec:
     count = 0
+    bare = False
     faults = []
     log = []
     turn = 0
@@ -102,6 +103,8 @@ def _tick(name, text):
     for f in Rec.faults:
         if f == idx:
             Rec.log.append(("raised", name, idx))
+            if Rec.bare:
+                raise Boom()  # an exception without arguments (bare assert, timeout, `raise MyError()`)
             raise Boom("injected fault in %s (invocation %d)" % (name, idx))
 
 
@@ -131,9 +134,9 @@ def _llm_text(t):
     return "LLM says hi %d" % (t + 1)
 
 
-def contained(f1: int, f2: int) -> bool:
+def contained(f1: int, f2: int, bare: bool = False) -> bool:
     """
-    f1, f2: global indices (over the whole conversation) of the harness-action invocations that raise (>= number of invocations: no fault).
+    f1, f2: global indices (over the whole conversation) of the harness-action invocations that raise (>= number of invocations: no fault); bare: the exception carries no arguments.
     Every turn returns normally; a turn with a fault answers with a refusal or the internal-error text and never with the unchecked text; in the next turn all rails run again.
     pre: 0 <= f1 <= 7 and 0 <= f2 <= 7 and f1 <= f2
     pre: _fixed(f1=f1, f2=f2)
@@ -144,6 +147,7 @@ def contained(f1: int, f2: int) -> bool:
     rails.reset_app(APP)
     Rec.count = 0
     Rec.faults = [f1, f2]
+    Rec.bare = True if bare else False
     messages = []
     state = None
     why = None
@@ -188,7 +192,7 @@ def contained(f1: int, f2: int) -> bool:
             why = "turn %d: %s" % (t + 1, why)
             break
     if not rails.is_tracing():
-        LAST_INFO = {"faults": [int(f1), int(f2)], "turns": info, "why": why}
+        LAST_INFO = {"faults": [int(f1), int(f2)], "exception_without_args": bool(bare), "turns": info, "why": why}
     return why is None
 
 
